@@ -6,13 +6,13 @@ from hypothesis import strategies as st
 ID = 'C19'
 RULE = ("digraphs (self-loops, isolated vertices, explicit key/neighbour insertion order) enumerated "
         "exhaustively for n<=4 (quick) / n<=5 (thorough) under seed-selected key orders, plus random "
-        "digraphs n<=8/10 and generated HRG specs (a third with an edit history: nonterminal edges added to right-hand sides and removed again) for nonterminal_graph; oracle = boolean transitive "
+        "digraphs n<=8/10 and generated HRG specs (a third with an edit history: nonterminal edges added to right-hand sides and removed again; half re-queried after a rule already in the grammar got a nonterminal edge added or removed) for nonterminal_graph; oracle = boolean transitive "
         "closure; non-trivial = >=3 vertices, some component of size>=2 and an edge between two different "
         "components (HRG cases: >=2 nonterminals and >=1 nonterminal edge); distinct by canonical case hash "
         "(enumerated graphs are distinct by construction)")
 ASSUMPTIONS = ["graph is a closed adjacency mapping Dict[v, Dict[v, None]] (every successor is a key), as "
                "nonterminal_graph produces", "vertex keys are hashable ints/strings"]
-ESSENTIAL_LABELS = ['comp>=2', 'cross-edge', 'self-loop', 'isolated', 'hrg', 'hrg-removed-edge']
+ESSENTIAL_LABELS = ['comp>=2', 'cross-edge', 'self-loop', 'isolated', 'hrg', 'hrg-removed-edge', 'hrg-edited-after-query']
 
 
 def budget(tier):
